@@ -29,4 +29,16 @@ def enumerate {α : Type} (l : List α) : List (Nat × α) := enumFrom 0 l
 /-- `u32::checked_add` -/
 def checkedAdd32 (a b : Nat) : Option Nat := if a + b ≤ 4294967295 then some (a + b) else none
 
+/-- An input that hands out its bytes in reads of its own choosing (a pipe, a socket, `ssh cat`): what it still holds, and for
+each coming `read` how many bytes it is willing to deliver at most (`c` stands for `c + 1`: a read with room never returns 0
+before the end of the input; when the list is used up every read fills the room). -/
+abbrev Reader := List Nat × List Nat
+
+/-- `reader.read(&mut buf[..room])`: the bytes delivered, and the reader afterwards -/
+def readInto (r : Reader) (room : Nat) : List Nat × Reader :=
+  let cap := match r.2 with
+    | [] => room
+    | c :: _ => c + 1
+  (r.1.take (min (min room cap) r.1.length), (r.1.drop (min (min room cap) r.1.length), r.2.tail))
+
 end Copia.DeltaSupport
